@@ -81,7 +81,7 @@ def correspondence(ctx, model_ok, tmp):
     reg.registerDatasetType(dt0)
     KEYS = [1, 2, 3, 4]
     req, impl = [], []
-    n_hist = 25 if ctx.quick() else 400
+    n_hist = 25 if ctx.quick() else 250
 
     def viol(what, key, replay):
         ctx.violations.append(core.Violation(what=what, key=key, replay=replay))
